@@ -39,10 +39,10 @@ import (
 //     body of "/" must be the splash page.
 //   * handler type "share" (pkg/server/share.go) is public by design and governed by the chain
 //     validator (part (a), repeated here through the mux at /share/).
-//   * serverinit.InstallHandlers additionally mounts /debug/vars and /debug/pprof/ without auth
-//     and /debug/goroutines, /debug/config, /debug/logs/ with auth. They are not handler prefixes
-//     of the configuration (the property's quantifier); the three authenticated ones are swept,
-//     the two open ones are only recorded in the evidence ("debug_endpoints_open").
+//   * serverinit.InstallHandlers additionally mounts /debug/vars, /debug/pprof/, /debug/goroutines,
+//     /debug/config and /debug/logs/. They report status, so the statement's "every other endpoint"
+//     covers them: all five are swept. (/debug/vars and /debug/pprof/ were served without
+//     credentials until fix 93ebe86; see known_findings.json C17-debug-vars-pprof-unauthenticated.)
 
 type cred struct {
 	class string // none | wrong/... | correct/...
@@ -333,7 +333,7 @@ func TestEndpoints(t *testing.T) {
 			{path: "mobile-setup", sym: "mobile-setup"},
 		}
 		targets := append([]string{}, prefixes...)
-		targets = append(targets, "/debug/goroutines", "/debug/config", "/debug/logs/", "/no-such-prefix/")
+		targets = append(targets, "/debug/goroutines", "/debug/config", "/debug/logs/", "/debug/vars", "/debug/pprof/", "/no-such-prefix/")
 		var reqs []epReq
 		for _, p := range targets {
 			for _, sb := range subs {
